@@ -1183,3 +1183,11 @@ M('C06', 'ordering-accepts-ascending-word', GR,
 M('C06', 'limit-before-pivot', GR,
   "      ['PIVOT' 'BY' pivot_by:pivotby]\n      ['LIMIT' limit:integer]", "      ['LIMIT' limit:integer]\n      ['PIVOT' 'BY' pivot_by:pivotby]",
   ('R-CLAUSELANG', 'grammar:select'))
+M('C11', 'getitem3-default-ignored', QE,
+  "        return obj.get(key(row), default(row))", "        return obj.get(key(row))",
+  ('R-ACCESSEVAL', 'GetItem3.__call__'))
+M('C11', 'evalgetitem-raises-on-missing-key', QC,
+  "        return operand.get(self.key)", "        return operand[self.key]",
+  ('R-ACCESSEVAL', 'EvalGetItem.__call__'))
+T('C11', 'twin-getitem2-locals', QE,
+  "        obj, key = self.operands\n        obj = obj(row)\n        if obj is None:\n            return None\n        return obj.get(key(row))", "        container, key = self.operands\n        mapping = container(row)\n        if mapping is None:\n            return None\n        wanted = key(row)\n        return mapping.get(wanted)")
